@@ -85,6 +85,19 @@ CHECKS["C09"] = dict(
     design="§7 C09",
 )
 
+CHECKS["C10"] = dict(
+    text=("Lean (exact rational arithmetic): for every interleaving of groups the output at a row is a function of the same group's rows up to it only "
+          "(loopGo_at: group independence, null-key rows get a constant marker); the per-group state is the decayed weighted sums of the history "
+          "(run_state), hence at every valid row the output is the normalised exponentially weighted mean with weight beta^(group rows elapsed) "
+          "(ema_closed_form); invalid rows repeat the previous output, the output is null until the first valid observation; the time-weighted kernel "
+          "satisfies the same closed form with weight decay(t_i - t_j) for ANY multiplicative decay (ema_timed_closed_form), of which 2^(-dt/halflife) "
+          "is an instance. Correspondence: ema / ema_grouped / GroupBy.ema against the exact rational model (untimed, rational alpha) and a float "
+          "closed-form oracle (halflife, timed; units s/ms/us/ns, pre-1970, leading nulls, masks, null keys, both layouts)."),
+    note="PARTIAL for real-valued halflives: alpha = 1 - 2^(-1/h) and decay = 2^(-dt/h) involve exp/log, which are outside the model; the conversion is checked by comparing the entry points with the float closed form to 1e-9 relative. Mathlib single modules (FieldSimp, Ring, Positivity, Order.Field.Rat, Data.List.Basic) are imported by this proof file only.",
+    technique="Lean 4 proof over Rat (state invariant = decayed weighted sums; closed form; abstract multiplicative decay) + differential correspondence",
+    design="§7 C10",
+)
+
 NOT_APPLICABLE: list[dict] = []
 
 
